@@ -204,9 +204,21 @@ package aggregation
 //@   ensures len(s.orderedValues) == 0 ==> result == 0.0
 //@   ensures len(s.orderedValues) > 0 ==> exists k in [0, len(s.orderedValues)) :: result == s.orderedValues[k]
 //@   ensures len(s.orderedValues) > 0 && 0.0 <= p && p < 1.0 && len(s.orderedValues) <= 1000000000 ==> result == s.orderedValues[f2i(real(len(s.orderedValues)) * p)]
+// Mode: a value whose run of equal neighbours in the ordered list is as long as any (run_len(i) is
+// the length of the run of equal values that ends at position i)
+//@ smt
+//@ (define-fun-rec run_len ((rl!a (Array Int Real)) (rl!o Int) (rl!i Int)) Int
+//@   (ite (<= rl!i 0) 1 (ite (= (select rl!a (+ rl!o rl!i)) (select rl!a (+ rl!o (- rl!i 1)))) (+ (run_len rl!a rl!o (- rl!i 1)) 1) 1)))
+//@ end
+//@ pred rlen(s, i) := run_len(arr(s.orderedValues), off(s.orderedValues), i)
 //@ func (*StatisticalAnalysis).Mode
 //@   pure
-//@   loop 1 invariant 0 <= i
+//@   ensures [empty] len(s.orderedValues) == 0 ==> result == 0.0
+//@   ensures [most-frequent] len(s.orderedValues) > 0 ==> exists k in [0, len(s.orderedValues)) :: result == s.orderedValues[k] && (forall j in [0, len(s.orderedValues)) :: rlen(s, j) <= rlen(s, k))
+//@   loop 1 invariant 0 <= i && i <= len(s.orderedValues) && 0 <= maxObserved && maxObserved <= i && 0 <= currObserved && currObserved <= i
+//@   loop 1 invariant (i == 0 ==> currObserved == 0 && currValue == 0.0 && maxObserved == 0) && (i >= 1 ==> currValue == s.orderedValues[i - 1] && currObserved == rlen(s, i - 1))
+//@   loop 1 invariant forall j in [0, i) :: rlen(s, j) <= maxObserved
+//@   loop 1 invariant i >= 1 ==> exists k in [0, i) :: maxValue == s.orderedValues[k] && rlen(s, k) == maxObserved
 
 // ---- MatchNumerical: running moments against the ghost sample history (floats as reals) ----
 // ghost history of one aggregator: nm_vals[0..nm_n) are the samples in arrival order,
